@@ -510,6 +510,16 @@ func vfGenC10(t *rapid.T) vfC10Case {
 	if len(sc.Items) > 90 {
 		sc.Items = sc.Items[:90]
 	}
+	if rapid.IntRange(0, 5).Draw(t, "longheader") == 0 {
+		// a camera description the CPTV header cannot carry (strings are limited to 255 bytes): every start fails
+		// after the files have been created
+		sc.Cam.Firmware = strings.Repeat("f", 300)
+		sc.Cont = true
+		if len(sc.Items) > 6 {
+			sc.Items[3] = vfItem{K: vfItBad}
+			sc.Items[5] = vfItem{K: vfItBad}
+		}
+	}
 	c := vfC10Case{Sock: sc}
 	if rapid.IntRange(0, 2).Draw(t, "testrec") == 0 {
 		c.TestAt = []int{rapid.IntRange(0, len(c.Sock.Items)/2).Draw(t, "testat")}
